@@ -83,6 +83,8 @@ Definition check_C15 := failing (run_checker chk_C15).
      21 paid before creation height + payout period                             22 cancel succeeded for a request id that is not pending
      31 record accepted for a request id that is still pending                  32 record id not larger than every earlier id of the tenant
      33 an accepted record / cancel reported no event                           34 by-request-id lookup disagrees with the pending set
+     35 the stored request-id index and the stored records are not in bijection (an entry without its record: the request
+        id can never be recorded again; or a record without its entry)
      41 privileged message accepted from a non-admin                            42 duplicate admin accepted   43 last admin removed
      44 admin list differs from the one the accepted messages produce           45 empty admin list or duplicates in it
      46 a block of rejected transactions changed tenants / records / balances
@@ -177,6 +179,15 @@ Definition snap_vs_track (tr : track) (sn : snap) : list Z :=
         end) (s_utxrs s) then [] else [13])
   ++ (if forallb (fun l : Z * bytes * option Z =>
         option_eqb Z.eqb (pend_find (tr_pend tr) (fst (fst l)) (snd (fst l))) (snd l)) (sn_lookup sn) then [] else [34])
+  ++ (if forallb (fun x : Z * bytes * Z =>
+            match utxr_get (s_utxrs s) (fst (fst x)) (snd x) with
+            | Some rc => bytes_eqb (u_req rc) (snd (fst x))
+            | None => false
+            end) (s_idx s)
+         && forallb (fun x : Z * Z * utxr =>
+              existsb (fun y : Z * bytes * Z => (fst (fst y) =? fst (fst x)) && bytes_eqb (snd (fst y)) (u_req (snd x))
+                                                 && (snd y =? snd (fst x))) (s_idx s)) (s_utxrs s)
+      then [] else [35])
   ++ (if forallb (fun t => list_eqb Z.eqb (t_admins t) (admins_of tr (t_id t))) (s_tenants s) then [] else [44])
   ++ (if forallb (fun t => nodupZ (t_admins t) && negb (lenZ (t_admins t) =? 0)) (s_tenants s) then [] else [45]).
 
@@ -194,6 +205,10 @@ Definition settled_total (rc : utxr) : Z :=
   | _ => sumZ (map snd (payout_amounts rc))
   end.
 
+(* the account the harness debits in the model for ERC-20 tokens minted to a treasury (an environment action):
+   it is not an account of the implementation, its balance is unbounded *)
+Definition erc20_minter : Z := two160 - 2.
+
 Definition block_credits (prev : snap) (blk : list event) (blko : list iobs) (tid : Z) (d : bytes) : Z :=
   sumZ (map (fun eo : event * iobs =>
     match eo with
@@ -201,7 +216,8 @@ Definition block_credits (prev : snap) (blk : list event) (blko : list iobs) (ti
         sumZ (map (fun x => match x with
                             | ES (EnvBankSend from to d' a) =>
                                 if (to =? treasury tid) && bytes_eqb d d' && (0 <? a)
-                                   && (a <=? bal_get (s_bal (sn_s prev)) from d') && (from <? two160) then a else 0
+                                   && ((a <=? bal_get (s_bal (sn_s prev)) from d') || (from =? erc20_minter))
+                                   && (from <? two160) then a else 0
                             | _ => 0
                             end) envs)
     | (EvTx _ msgs, ITx COk _) =>
